@@ -412,7 +412,19 @@ func cycle(g *gen.G, w *world, orig bool, st *stats) {
 	w.mu.Lock()
 	w.emit("M.aw")
 	w.mu.Unlock()
-	awaitStop()
+	awaited := make(chan struct{})
+	go func() { awaitStop(); close(awaited) }()
+	select {
+	case <-awaited:
+	case <-time.After(60 * time.Second):
+		// the model has no run in which main stays in `awaiting` for ever once the clients have
+		// finished: report the log so far with a marker the acceptor rejects
+		w.mu.Lock()
+		w.emit("DEADLOCK")
+		w.mu.Unlock()
+		fmt.Fprintf(os.Stderr, "corrjob: AwaitStop did not return within 60 s of RequestStop\n")
+		return
+	}
 	w.mu.Lock()
 	w.emit("M.ex")
 	exitAt := len(w.log)
@@ -474,6 +486,10 @@ func main() {
 			}
 			cycle(g, w, *orig, st)
 			st.Cycles++
+			if len(w.log) > 0 && w.log[len(w.log)-1] == "DEADLOCK" {
+				w.violations = append(w.violations, "AwaitStop never returned")
+				break
+			}
 		}
 		st.Scenarios++
 		st.Labels += len(w.log)
